@@ -47,11 +47,13 @@ Process(h, chunk, isNone) ==
         comp == prev \o chunk
         hits == HitStops(h, comp)
     IN IF hits # {} THEN
-         LET k   == Min(hits)                      \* first stop in *list* order that is contained
-             cut == Take(comp, FirstOcc(comp, h.stops[k]) - 1)
+         LET at  == Min({FirstOcc(comp, h.stops[j]) : j \in hits})   \* the stop that occurs first wins
+             cut == Take(comp, at - 1)
              h1  == [h EXCEPT !.completion = cut]
              h2  == IF Len(cut) > Len(prev)
-                      THEN Push([h1 EXCEPT !.cur = Drop(cut, Len(prev))], <<>>, TRUE)  \* push_chunk(None)
+                      \* the new part is re-added by the nested push_chunk(None); prefix dropped
+                      THEN Push([h1 EXCEPT !.cur = Drop(cut, Len(prev)), !.completion = prev, !.prefix = <<>>],
+                                <<>>, TRUE)
                       ELSE h1
          IN [h2 EXCEPT !.fin = TRUE]
        ELSE Emit([h EXCEPT !.completion = comp], chunk)
@@ -64,7 +66,7 @@ Push(h, chunk, isNone) ==
     IF StartsWith(cur, h.prefix) THEN
       LET rest == Drop(cur, Len(h.prefix))
           h1   == [h EXCEPT !.cur = rest, !.prefix = <<>>]
-      IN IF rest # <<>> THEN [Process(h1, rest, FALSE) EXCEPT !.cur = <<>>] ELSE h1
+      IN IF rest # <<>> THEN Push([h1 EXCEPT !.cur = <<>>], rest, FALSE) ELSE h1   \* leftover re-pushed
     ELSE [h EXCEPT !.cur = cur]
   ELSE IF h.suffix # <<>> \/ h.stops # <<>> THEN
     LET cur  == IF isNone THEN h.cur ELSE h.cur \o chunk
